@@ -1,32 +1,27 @@
 import Jose
 import Driver.Wire
+import Driver.OpsCodec
+import Driver.OpsHeader
+import Driver.Oracle
+import Driver.OpsJws
 /-!
 Line-protocol driver: one request per line on stdin, one answer per line on stdout.
 `<op> <args…>`; bytes are hex (`-` = empty).  Unknown or malformed requests answer `bad-op`.
 -/
 open Jose Driver
 
-def handle (toks : List String) : String :=
-  match toks with
-  | ["b64e", x] => match hexToBytes x with
-    | some b => "ok " ++ bytesToHex (b64e b)
-    | none => "bad-op"
-  | ["b64d", x] => match hexToBytes x with
-    | some b => showRes ((b64d b).map bytesToHex)
-    | none => "bad-op"
-  | ["i2b", n] => match n.toInt? with
-    | some z => showRes ((intToBase64 z).map bytesToHex)
-    | none => "bad-op"
-  | ["b2i", x] => match hexToBytes x with
-    | some b => showRes ((base64ToInt b).map toString)
-    | none => "bad-op"
-  | ["encint", n, bits] => match n.toInt?, bits.toNat? with
-    | some z, some b => showRes ((encodeInt z b).map bytesToHex)
-    | _, _ => "bad-op"
-  | ["decint", x] => match hexToBytes x with
-    | some b => showRes ((decodeInt b).map toString)
-    | none => "bad-op"
-  | _ => "bad-op"
+def handle (allToks : List String) : String :=
+  let toks := allToks.takeWhile (· ≠ "|")
+  let tbl := parseTable ((allToks.dropWhile (· ≠ "|")).drop 1)
+  match handleCodec toks with
+  | some r => r
+  | none =>
+  match handleHeader toks with
+  | some r => r
+  | none =>
+  match handleJws toks tbl with
+  | some r => r
+  | none => "bad-op"
 
 partial def loop (hin hout : IO.FS.Stream) : IO Unit := do
   let line ← hin.getLine
